@@ -1,9 +1,8 @@
 import JominiModel.Props.C12
-open Jomini.Props.C12
-#print axioms C12_tables_win1252
-#print axioms C12_win1252
-#print axioms C12_borrowed
-#print axioms C12_win1252_borrowed_iff
-#print axioms C12_utf8
-#print axioms C12_valid
-#print axioms C12_utf8_borrowed_sound
+#print axioms Jomini.Props.C12.C12_tables_win1252
+#print axioms Jomini.Props.C12.C12_win1252
+#print axioms Jomini.Props.C12.C12_borrowed
+#print axioms Jomini.Props.C12.C12_win1252_borrowed_iff
+#print axioms Jomini.Props.C12.C12_utf8
+#print axioms Jomini.Props.C12.C12_valid
+#print axioms Jomini.Props.C12.C12_utf8_borrowed_sound
